@@ -78,6 +78,8 @@ TRUSTED_BASE = [
     "(their output is taken as 'what was sent')",
 ]
 ASSUMPTIONS = [
+    "body-never-completes signatures carry where the stream stood at the reader's last pause request (pause-mid-chunk / "
+    "pause-at-chunk-boundary): the boundary variant is a known finding of the unchanged tree (C02-F26a/b), the mid-chunk variant is not",
     "flow scenarios: read_bufsize in {256,1024,4096} on the receiving side, bodies 1.5x-12x the high-water mark, consumers reading "
     "incrementally with virtual-time sleeps; timer scenarios count an exchange as healthy when the server had written every byte "
     "before the timeout fired; a failed upload is one whose body source raised before yielding everything",
@@ -589,6 +591,16 @@ def direct_oracle(ctx, case, obs):
     probe_ok = not pr.get("exc") and pr.get("status") == 200 and pr.get("body") == b"probe-ok"
     exp_req_body = obs.get("req_expected_body")
 
+    # ---- 0'. chunked=True on a GET-class request without data (known root cause F22b): the terminator is written
+    #          without a Transfer-Encoding header — or, with expect100, is never written because the exchange dies first
+    if rq.get("chunked") is True and rq["body"]["kind"] == "none" and method in ("GET", "HEAD", "OPTIONS", "TRACE"):
+        healthy = (len(main_seen) == 1 and "exc" not in cli and probe_ok
+                   and not any(e.startswith("Bad") for e in obs.get("srv_errs", [])))
+        if not healthy:
+            V("request-wire-desync/chunked-terminator-without-transfer-encoding/chunked-true-without-data",
+              f"{method} with chunked=True and no data (expect100={bool(rq.get('expect100'))}): handler saw {len(main_seen)} request(s), "
+              f"caller got {cli.get('status', cli.get('exc'))}, probe {pr.get('status', pr.get('exc'))}; client wire ends {wires[0][0][-12:] if wires else b''!r}")
+            return
     # ---- 1. the request on the wire: exactly the request (per its own framing headers), then at most the probe
     if wires:
         cw = wires[0][0]
@@ -1320,7 +1332,8 @@ def _check(ctx):
     with tempfile.TemporaryDirectory(prefix="c02-") as tmpdir:
         make_files(tmpdir)
         # flow control / sock_read timer / failing upload sources (oracle + the `_write_bytes` decision table)
-        fcases = c02flow.check(ctx, lambda: ctx.time_left() is not None and ctx.time_left() < 30)
+        fcases = c02flow.check(ctx, lambda: ctx.time_left() is not None and ctx.time_left() < 30,
+                               extra=[c for c in corpus_cases() if c.get("kind") in c02flow.KINDS])
         compare_upfail(ctx, fcases)
         cases = [c for c in corpus_cases() if c.get("kind") not in c02flow.KINDS]
         cases += systematic_cases(ctx)
